@@ -167,8 +167,8 @@ PROPS = {
     },
     "C20": {
         "title": "A failed disk operation is reported and leaves the store consistent",
-        "rules": [k5.e1_no_dropped_result, controls.control("E1"), k5.e2_merge_errors_abort, k2s.p11_command_application, k2m.p5_merge_outputs_before_unlink, k2.p13_writer_identity_pair, k2.p3_publish_after_append, k2.p1_append_flushes, k2m.s7_s8_merge_sets, k9.s15_position_tracking, k4.v5_hint_fallback, k1.w1_file_mutation_api, controls.control("W1")],
-        "decides": "no storage Result is dropped; no buffered output is left to Drop's error-swallowing flush before unlink/Ok; active_fileid and writer change together or not at all on every error path; the index is touched only on the Ok edge of the append; flush errors of append are propagated; merge aborts on the first failed disk operation (an error that is only logged does not count); hint after data so that a failed create leaves no orphan hint; the position an append reports is the tracked count of bytes handed to the buffered writer (bytes of a failed flush that are still buffered are counted, they precede the next record); every error of the hint loader other than NotFound ends the open with that error (none is swallowed into an incomplete index); files are created exclusively, so a retried operation can never adopt the leftovers of a failed one; over the network a failed storage call is never answered with a success reply (P11)",
+        "rules": [k5.e1_no_dropped_result, controls.control("E1"), k5.e2_merge_errors_abort, k2s.p11_command_application, k2m.p5_merge_outputs_before_unlink, k2.p13_writer_identity_pair, k2.p3_publish_after_append, k2.p1_append_flushes, k2m.s7_s8_merge_sets, k9.s15_position_tracking, k4.v5_hint_fallback, k1.w1_file_mutation_api, controls.control("W1"), k10.p16e_failed_merge_rotates],
+        "decides": "no storage Result is dropped; no buffered output is left to Drop's error-swallowing flush before unlink/Ok; active_fileid and writer change together or not at all on every error path; the index is touched only on the Ok edge of the append; flush errors of append are propagated; merge aborts on the first failed disk operation (an error that is only logged does not count); hint after data so that a failed create leaves no orphan hint; the position an append reports is the tracked count of bytes handed to the buffered writer (bytes of a failed flush that are still buffered are counted, they precede the next record); every error of the hint loader other than NotFound ends the open with that error (none is swallowed into an incomplete index); files are created exclusively, so a retried operation can never adopt the leftovers of a failed one; over the network a failed storage call is never answered with a success reply (P11); a merge that gives up after re-pointing entries does not return while the active file is below its outputs (P16e: violated on the current tree, known finding D11)",
         "not_decided": "the effect of each errno as behaviour; history-shaped fault defects D11/D12 (DESIGN.md section 6)",
     },
 }
